@@ -1208,7 +1208,7 @@ func (e *c11Env) run(sc c11Scn) {
 
 // ---------- scenarios ----------
 
-var c11Kinds = []string{"inbound-new", "inbound-existing", "inbound-two", "addout-new", "addout-existing", "addout-mid-in-sent", "setsent", "setsent-mid-in-sent",
+var c11Kinds = []string{"inbound-new", "inbound-existing", "inbound-two", "addout-new", "addout-existing", "addout-mid-in-sent", "inbound-name-max-window", "addout-name-max-window", "setsent", "setsent-mid-in-sent",
 	"setunread-false", "setunread-true-after-read", "setunread-false-noop", "inbound-large"}
 
 func c11Gen(c *Ctx, kind string) c11Scn {
@@ -1284,6 +1284,15 @@ func c11Gen(c *Ctx, kind string) c11Scn {
 		old := msg(tgt, false)
 		pre = append(pre, mOp{K: 'A', Msgs: []mMsg{old}})
 		op = mOp{K: 'A', Msgs: []mMsg{differ(old, msg(tgt, false))}}
+	case "inbound-name-max-window", "addout-name-max-window":
+		// a MID of 248..251 bytes: "<MID>.b2f" is a legal file name, "<MID>.b2f.tmp" is not (NAME_MAX). The store has
+		// to fail cleanly (or succeed atomically) - there is no temp name to write through
+		tgt = strings.Repeat("W", 248+rng.Intn(4))
+		if kind == "inbound-name-max-window" {
+			op = mOp{K: 'I', Msgs: []mMsg{msg(tgt, true)}}
+		} else {
+			op = mOp{K: 'A', Msgs: []mMsg{msg(tgt, false)}}
+		}
 	case "addout-mid-in-sent":
 		// a message that was sent is posted again (a resend): until the new copy is in the outbox the sent copy is
 		// the only one
